@@ -66,5 +66,13 @@ UNIT = {
              "!ctx.spec_options().fit_macro_constants && kind_bits(r) == Some(64int) ==> (if kind_signed(r) { !(-2147483648 <= value <= 2147483647) } else { !(0 <= value <= 4294967295) })",
          ],
          "proof_start": "lemma_pow2i();"},
+        # Enum::codegen: the Rust integer type an enum's representation is translated to (let-statement, R18)
+        {"kind": "fn", "file": "bindgen/codegen/mod.rs", "name": "translated_enum_repr", "impl": r"^impl CodeGenerator for Enum$", "ret": "r",
+         "closure": {"enclosing": "codegen", "anchor": "let translated = match (signed, size) {", "nth": 0, "stmt": "let",
+                     "signature": "fn translated_enum_repr(signed: bool, size: usize) -> (r: IntKind)", "prefix": "{", "suffix": "; translated }"},
+         "ensures": [
+             # C05: "their enum type keeps the underlying width and signedness"
+             "(size == 1 || size == 2 || size == 4 || size == 8) ==> kind_bits(r) == Some(8 * size as int) && kind_signed(r) == signed",
+         ]},
     ],
 }
